@@ -2,7 +2,7 @@
    and abstraction [abs : tbl -> list row]. *)
 From Coq Require Import List ZArith Bool Lia.
 From TskVerif Require Import Base.Common C13.Model C13.Lemmas C13.Rep C13.Bridge C13.OpsProofs
-  C13.ColsProofs C13.UpdateProofs.
+  C13.ColsProofs C13.UpdateProofs C13.KeepProofs.
 Import ListNotations.
 Open Scope Z_scope.
 
@@ -182,3 +182,165 @@ Proof.
   intros W O H. pose proof (table_copy_rep _ _ _ _ (WF_TRep _ _ W) O H) as R.
   split; [eapply TRep_WF; eassumption | apply (TRep_abs _ _ _ R)].
 Qed.
+
+(* ---------- (e) keep_rows ---------- *)
+Theorem keep_rows_refines d t keep t' idm :
+  WF d t -> zlen keep = nrows t -> keep_rows d t keep = Ok (t', idm) ->
+  idm = keep_mask_to_id_map keep /\ WF d t' /\
+  abs t' = map (remap_row d idm) (filter_mask keep (abs t)) /\
+  kept_refs_ok d (nrows t) idm keep (abs t).
+Proof.
+  intros W Lk H. pose proof (WF_TRep _ _ W) as R0.
+  destruct (keep_rows_rep _ _ _ _ _ _ R0 Lk H) as [E R].
+  split; [exact E|]. split; [eapply TRep_WF; eassumption|]. split; [apply (TRep_abs _ _ _ R)|].
+  apply (keep_rows_refs_ok _ _ _ _ _ _ R0 Lk H).
+Qed.
+
+(* a kept row that references a dropped (or non-existent) row makes the call fail; the
+   model returns no new state in that case: the table is unchanged *)
+Theorem keep_rows_dangling d t keep :
+  WF d t -> zlen keep = nrows t ->
+  ~ kept_refs_ok d (nrows t) (keep_mask_to_id_map keep) keep (abs t) ->
+  exists c, keep_rows d t keep = Err c.
+Proof. intros W Lk B. apply (keep_rows_dangling_rejected _ _ _ _ (WF_TRep _ _ W) Lk B). Qed.
+
+Definition ex_mut_rows : list row :=
+  [ ([0; 0; 5; -1], [[65]; []]); ([0; 1; 5; 0], [[67; 67]; [1]]);
+    ([1; 2; 5; -1], [[]; [2; 3]]); ([1; 3; 5; 2], [[71]; []]); ([1; 3; 5; 0], [[84]; [9]]) ].
+Definition ex_mut : tbl :=
+  fold_left (fun t r => match add_row d_mutations t r with Ok t' => t' | _ => t end) ex_mut_rows (init d_mutations 0).
+
+(* rows 0, 2, 3, 4 kept: parents 2 -> 1 and 0 -> 0 are renumbered, ragged cells compacted in place *)
+Example keep_rows_ex :
+  (do p <- keep_rows d_mutations ex_mut [true; false; true; true; true];
+   Ok (snd p, WFb d_mutations (fst p), abs (fst p)))
+  = Ok ([0; -1; 1; 2; 3], true,
+        [ ([0; 0; 5; -1], [[65]; []]); ([1; 2; 5; -1], [[]; [2; 3]]);
+          ([1; 3; 5; 1], [[71]; []]); ([1; 3; 5; 0], [[84]; [9]]) ]).
+Proof. vm_compute. reflexivity. Qed.
+
+(* dropping row 0, which rows 1 and 4 reference, is refused *)
+Example keep_rows_dangling_ex :
+  keep_rows d_mutations ex_mut [false; true; true; true; true] = Err TSK_ERR_KEEP_ROWS_MAP_TO_DELETED.
+Proof. vm_compute. reflexivity. Qed.
+
+Example keep_rows_individuals_ex :
+  (do p <- keep_rows d_individuals ex_tbl [true; false; true]; Ok (snd p, WFb d_individuals (fst p), abs (fst p)))
+  = Err TSK_ERR_KEEP_ROWS_MAP_TO_DELETED /\
+  (do p <- keep_rows d_individuals ex_tbl [true; true; false]; Ok (snd p, WFb d_individuals (fst p), abs (fst p)))
+  = Ok ([0; 1; -1], true, firstn 2 ex_rows).
+Proof. split; vm_compute; reflexivity. Qed.
+
+(* ---------- every finite sequence of operations ---------- *)
+Inductive cop :=
+| CAdd (r : row) | CTruncate (n : Z) | CClear | CUpdate (i : Z) (r : row)
+| CExtend (u : tbl) (idx : list Z) | CSet (cs : cols) | CAppend (cs : cols) | CKeep (keep : list bool).
+
+(* the columnar implementation *)
+Definition cstep (d : tdesc) (t : tbl) (o : cop) : tbl * res unit :=
+  match o with
+  | CAdd r => if row_ok d r then lift t (add_row d t r) else (t, Err TSK_ERR_BAD_PARAM_VALUE)
+  | CTruncate n => lift t (truncate t n)
+  | CClear => lift t (clear t)
+  | CUpdate i r => if row_ok d r then update_row d t i r else (t, Err TSK_ERR_BAD_PARAM_VALUE)
+  | CExtend u idx => if WFb d u then extend d t u idx else (t, Err TSK_ERR_BAD_PARAM_VALUE)
+  | CSet cs => set_columns d t cs
+  | CAppend cs => append_columns d t cs
+  | CKeep keep =>
+      if zlen keep =? nrows t then
+        match keep_rows d t keep with
+        | Ok (t', _) => (t', Ok tt)
+        | e => (t, err_of e)
+        end
+      else (t, Err PY_VALUE_ERROR)
+  end.
+
+(* the same operation on a plain list of rows *)
+Definition lstep (d : tdesc) (rows : list row) (o : cop) : list row :=
+  match o with
+  | CAdd r => rows ++ [r]
+  | CTruncate n => firstn (Z.to_nat n) rows
+  | CClear => []
+  | CUpdate i r => replace_nth (Z.to_nat i) r rows
+  | CExtend u idx => rows ++ rows_at (abs u) idx
+  | CSet cs => match parse_cols d cs with Ok m => rows_of_cols (Z.to_nat m) cs | _ => rows end
+  | CAppend cs => match parse_cols d cs with Ok m => rows ++ rows_of_cols (Z.to_nat m) cs | _ => rows end
+  | CKeep keep => map (remap_row d (keep_mask_to_id_map keep)) (filter_mask keep rows)
+  end.
+
+(* run a sequence; None as soon as a step reports an error *)
+Fixpoint crun (d : tdesc) (t : tbl) (ops : list cop) : option tbl :=
+  match ops with
+  | [] => Some t
+  | o :: rest => match cstep d t o with
+                 | (t', Ok _) => crun d t' rest
+                 | _ => None
+                 end
+  end.
+
+Lemma cstep_refines d t o t' :
+  WF d t -> order_ok d -> cstep d t o = (t', Ok tt) -> WF d t' /\ abs t' = lstep d (abs t) o.
+Proof.
+  intros W O H. destruct o as [r|n| |i r|u idx|cs|cs|keep]; simpl in H.
+  - destruct (row_ok d r) eqn:Hr; [|inversion H]. unfold lift in H.
+    destruct (add_row d t r) as [t1| | |] eqn:A; inversion H; subst t1.
+    apply (add_row_refines _ _ _ _ W Hr A).
+  - unfold lift in H. destruct (truncate t n) as [t1| | |] eqn:A; inversion H; subst t1.
+    apply (truncate_refines _ _ _ _ W A).
+  - unfold lift in H. destruct (clear t) as [t1| | |] eqn:A; inversion H; subst t1.
+    apply (clear_refines _ _ _ W A).
+  - destruct (row_ok d r) eqn:Hr; [|inversion H].
+    destruct (update_row_refines _ _ _ _ _ W O Hr H) as (_ & W' & A). auto.
+  - destruct (WFb d u) eqn:Wu; [|inversion H].
+    destruct (extend_ok _ _ _ _ _ W Wu H) as (W' & A & _). auto.
+  - destruct (set_columns_refines _ _ _ _ W O H) as (m & P & W' & A). simpl. rewrite P. auto.
+  - destruct (append_columns_refines _ _ _ _ W O H) as (m & P & W' & A). simpl. rewrite P. auto.
+  - destruct (zlen keep =? nrows t) eqn:Lk; [|inversion H]. apply Z.eqb_eq in Lk.
+    destruct (keep_rows d t keep) as [[t1 idm]| | |] eqn:A; inversion H; subst t1.
+    destruct (keep_rows_refines _ _ _ _ _ W Lk A) as (E & W' & A' & _). subst idm. auto.
+Qed.
+
+(* the corollary: after any sequence of successful operations the table stands for the
+   plain list subjected to the same operations *)
+Theorem op_sequence_refines d : order_ok d -> forall ops t t',
+  WF d t -> crun d t ops = Some t' ->
+  WF d t' /\ abs t' = fold_left (lstep d) ops (abs t).
+Proof.
+  intros O. induction ops as [|o ops IH]; intros t t' W H; simpl in H.
+  - inversion H; subst. auto.
+  - destruct (cstep d t o) as [t1 st] eqn:S. destruct st as [[]| | |]; try discriminate.
+    destruct (cstep_refines _ _ _ _ W O S) as [W1 A1].
+    destruct (IH _ _ W1 H) as [W' A']. split; [exact W'|]. simpl. rewrite <- A1. exact A'.
+Qed.
+
+Lemma init_wf d incr : 0 <= incr -> WF d (init d incr) /\ abs (init d incr) = [].
+Proof.
+  intros H. pose proof (init_rep d incr H) as R. split; [eapply TRep_WF; eassumption | apply (TRep_abs _ _ _ R)].
+Qed.
+
+Corollary op_sequence_from_empty d incr ops t' :
+  order_ok d -> 0 <= incr -> crun d (init d incr) ops = Some t' ->
+  WF d t' /\ abs t' = fold_left (lstep d) ops [].
+Proof.
+  intros O Hi H. destruct (init_wf d incr Hi) as [W A].
+  destruct (op_sequence_refines d O ops _ _ W H) as [W' A']. rewrite A in A'. auto.
+Qed.
+
+Definition ex_ops : list cop :=
+  [ CAdd ([0; 0; 5; -1], [[65]; []]); CAdd ([0; 1; 5; 0], [[67; 67]; [1]]);
+    CAppend ([[1; 1]; [2; 3]; [5; 5]; [-1; 2]], [Some ([71], [0; 0; 1]); Some ([2; 3], [0; 2; 2])]);
+    CUpdate 1 ([0; 1; 6; 0], [[67]; [1; 1; 1]]);
+    CKeep [true; false; true; true];
+    CExtend ex_mut [4; 4];
+    CTruncate 4;
+    CUpdate 0 ([7; 7; 7; -1], [[66]; []]) ].
+
+Example op_sequence_ex :
+  (match crun d_mutations (init d_mutations 1) ex_ops with
+   | Some t' => Some (WFb d_mutations t', abs t')
+   | None => None end)
+  = Some (true, fold_left (lstep d_mutations) ex_ops []) /\
+  fold_left (lstep d_mutations) ex_ops []
+  = [ ([7; 7; 7; -1], [[66]; []]); ([1; 2; 5; -1], [[]; [2; 3]]);
+      ([1; 3; 5; 1], [[71]; []]); ([1; 3; 5; 0], [[84]; [9]]) ].
+Proof. split; vm_compute; reflexivity. Qed.
